@@ -397,7 +397,9 @@ impl Variant {
         match self {
             Self::VSingle(f) => Ok(f.round().fit_to_type()),
             Self::VDouble(d) => Ok(d.round().fit_to_type()),
-            Self::VInteger(_) | Self::VLong(_) => Ok(self),
+            // a LONG that holds a small value is as good as an INTEGER
+            Self::VLong(l) => Ok(l.fit_to_type()),
+            Self::VInteger(_) => Ok(self),
             _ => Err(VariantError::TypeMismatch),
         }
     }
